@@ -11,7 +11,9 @@ for f in sorted(glob.glob(os.path.join(ROOT, "seeded", "*", "meta.json"))):
     how = "judge on the implementation's output (replay = shrunk failing input)"
     if c.get("no_failing_input_found") == "yes": how = "proof obligation / correspondence broken (no-failing-input-found)"
     if "crash" in c.get("output", ""): how = "implementation crashed / sanitizer report (replay = the case)"
-    rows.append("| %s | %s | %s | %s | %s |" % (m["name"], m["property"], desc.replace("|", "/"), c["detected"], how if c["detected"] == "yes" else "-"))
-print("| seed | property | change (from the sub-agent's description) | detected by the property's quick check | how |")
-print("|---|---|---|---|---|")
+    fa = m.get("first_attempt")
+    first = "-" if not fa else ("missed" if fa["detected"] != "yes" else "detected, no failing input" if fa["no_failing_input_found"] == "yes" else "detected")
+    rows.append("| %s | %s | %s | %s | %s | %s |" % (m["name"], m["property"], desc.replace("|", "/"), c["detected"], how if c["detected"] == "yes" else "-", first))
+print("| seed | property | change (from the sub-agent's description) | detected by the property's quick check | how | before the machinery was strengthened |")
+print("|---|---|---|---|---|---|")
 print("\n".join(rows))
